@@ -283,6 +283,26 @@ theorem step_inv {σ : State} (e : Event) (h : Inv σ) : Inv (step σ e) := by
         split
         · exact ⟨forall_mem_set h.tasks (h.tasks T (List.mem_of_getElem? hT)), h.log, h.scopes, h.noAssert⟩
         · exact ⟨h.tasks, h.log, h.scopes, by simp⟩
+  | kill t =>
+    simp only [step]
+    split
+    · exact h
+    · split
+      · exact ⟨h.tasks, h.log, h.scopes, by simp⟩
+      · rename_i T hT
+        split
+        · split
+          · rename_i p rest hcode
+            have hwf := h.tasks T (List.mem_of_getElem? hT)
+            rw [hcode] at hwf
+            simp only [WF] at hwf
+            obtain ⟨s', sv', hs, hsv, _⟩ := hwf
+            refine ⟨forall_mem_set h.tasks ?_, h.log, h.scopes, h.noAssert⟩
+            simp only [WF]
+            refine ⟨s', sv', hs, hsv, ?_⟩
+            simpa using wf_hooks_append p _ (s := s') (sv := sv') [] (transitionHooks_lifecycle _ _) (by simp [WF])
+          · exact ⟨h.tasks, h.log, h.scopes, by simp⟩
+        · exact ⟨h.tasks, h.log, h.scopes, by simp⟩
   | callSoon p cb =>
     simp only [step]
     split
@@ -450,6 +470,27 @@ theorem resume_frame (σ : State) (t u : Tid) :
             · simp [List.getElem?_eq_none h] at hT
           simp [List.getElem?_set_self this, hT]
         · simp [List.getElem?_set_ne (Ne.symm h)]
+      · rfl
+
+theorem kill_frame (σ : State) (t u : Tid) :
+    (step σ (.kill t)).tasks[u]?.map (·.stack) = σ.tasks[u]?.map (·.stack) := by
+  simp only [step]
+  split
+  · rfl
+  · split
+    · rfl
+    · rename_i T hT
+      split
+      · split
+        · by_cases h : u = t
+          · subst h
+            have : u < σ.tasks.length := by
+              rcases Nat.lt_or_ge u σ.tasks.length with h | h
+              · exact h
+              · simp [List.getElem?_eq_none h] at hT
+            simp [List.getElem?_set_self this, hT]
+          · simp [List.getElem?_set_ne (Ne.symm h)]
+        · rfl
       · rfl
 
 theorem callSoon_frame (σ : State) (p : Pid) (cb : Nat) (u : Tid) (hu : u < σ.tasks.length) :
